@@ -463,6 +463,19 @@ def validateHolderPhase2 (p : Policy) (s : Setup) (c : ChainState) (e : EState) 
   hard .sig (!sigsOk)
   pure (if n = e.nextHolder then { e with nextHolderInfo := some i } else e)
 
+/-- `Channel::validate_holder_commitment_tx` (PHASE 1, the transaction handed over was built from the same
+    values): unlike phase 2 it re-validates the channel value, and the `claimable_balance` `expect`s run
+    *after* the validator. -/
+def validateHolderPhase1 (p : Policy) (s : Setup) (c : ChainState) (e : EState) (n : Nat) (i : Info)
+    (sigsOk : Bool) : Except Kind EState := do
+  hard .seq (decide (n > e.nextHolder + 1))
+  validateChannelValue p s
+  validateHolder p s c e n i
+  whenE (msatPanics p i) (.error .panic)
+  whenE (claimablePanics s i) (.error .panic)
+  hard .sig (!sigsOk)
+  pure (if n = e.nextHolder then { e with nextHolderInfo := some i } else e)
+
 /-- `Channel::revoke_previous_holder_commitment` (state effect only; the secret is C01/C02's subject) -/
 def revokeHolder (p : Policy) (e : EState) (n : Nat) : Except Kind EState := do
   if n ≠ e.nextHolder then
